@@ -92,6 +92,7 @@ Interior1  == Stateless("interior1", Interior1OK(E))
 Interior2  == Stateless("interior2", Interior2OK(E))
 Centre     == Stateless("centre", CentreOK(E))
 Owners     == Stateless("owners", OwnersOK(E))
+LocalMesh  == Stateless("localmesh", LocalMeshOK(E))
 MeshCells  == /\ IsEvent("meshcells")
               /\ LET r == MeshCellsResult(E, st.mesh)
                      ok == r[1] /\ MeshCellsShapeOK(E)
@@ -123,7 +124,7 @@ TraceNext ==
   \/ QuintMap \/ QuintMapPin \/ Call
   \/ ProjStep \/ Pair \/ Purity \/ Instances
   \/ FaceCentre \/ FaceAngle \/ Nearest \/ FrameCells \/ FrameEnd \/ Reflected \/ Sector \/ GoldenGeom \/ GoldenLookup
-  \/ Lookup \/ Interior1 \/ Interior2 \/ Centre \/ Owners \/ MeshCells \/ MeshEnd \/ Area \/ AreaMeta \/ Boundary
+  \/ Lookup \/ Interior1 \/ Interior2 \/ Centre \/ Owners \/ LocalMesh \/ MeshCells \/ MeshEnd \/ Area \/ AreaMeta \/ Boundary
 
 TraceSpec == TraceInit /\ [][TraceNext]_vars
 
